@@ -248,9 +248,11 @@ func vsGenC29(r *sim.Rand, tier string) *sim.Case {
 		g.keys = append(g.keys, vsKeyPool[i])
 	}
 	c.Cfg["keys"] = int64(nkeys)
-	n := 15 + r.Intn(100)
+	// Opening the database dominates the cost of a run (NoKV zeroes a 128 MiB
+	// arena per memtable whatever the options say), so sequences are long.
+	n := 30 + r.Intn(170)
 	if tier == "thorough" {
-		n = 15 + r.Intn(400)
+		n = 30 + r.Intn(470)
 	}
 	shape := r.Intn(40)
 	c.Cfg["shape"] = 0
